@@ -277,6 +277,12 @@ impl Scenario for Count {
         layers.insert(pos, Layer::Counted);
         s.layers = layers;
         p.sources.push(s);
+        // a third of the cases decode twice through the same CountedInput (multi-step use:
+        // reads after a failed read must still be counted)
+        // (not for subjects with zero-byte elements: the second decode starts wherever the first
+        // one stopped and could hit a hostile count there, which is a different, known matter)
+        let twice_ok = !catalogue().get(&p.subject).empty_elem;
+        p.set("twice", (rng.chance(1, 3) && twice_ok) as i64);
         p
     }
     fn run(&self, plan: &Plan, st: &mut Stats) -> Verdict {
@@ -284,9 +290,13 @@ impl Scenario for Count {
         let bytes = plan_bytes(plan);
         let src = plan.source0();
         let mut base = BaseInput::new(&src, &bytes);
+        let mode = if plan.param("twice") == 1 { Mode::Twice } else { Mode::Decode };
+        if mode == Mode::Twice {
+            st.probe("two_decodes_through_one_counter");
+        }
         let (out, delivered, failed) = {
             let mut tap = Tap { inner: base.as_dyn(), delivered: 0, ok_calls: 0, failed_calls: 0 };
-            let out = (s.decode_dyn)(&mut tap, &src.layers, Mode::Decode);
+            let out = (s.decode_dyn)(&mut tap, &src.layers, mode);
             (out, tap.delivered, tap.failed_calls)
         };
         let taken = base.taken();
@@ -315,7 +325,7 @@ impl Scenario for Count {
         if matches!(src.base, Base::Slice | Base::Cursor) && src.base == Base::Slice && delivered != taken as u64 {
             return viol("c19.count_vs_consumed", format!("{}: bytes {} source {}: CountedInput reports {} (= bytes delivered by successful reads) but the wrapped slice advanced by {} (decode {})", s.name, hex_short(&bytes), src.describe(), delivered, taken, class));
         }
-        if out.res.is_ok() && !rep.trace.any_error_fault_fired() && delivered != taken as u64 {
+        if out.res.is_ok() && mode == Mode::Decode && !rep.trace.any_error_fault_fired() && delivered != taken as u64 {
             return viol("c19.count_vs_consumed", format!("{}: bytes {} source {}: delivered {} but base position advanced by {}", s.name, hex_short(&bytes), src.describe(), delivered, taken));
         }
         st.sample(|| json!({"subject": s.name, "bytes": hex_short(&bytes), "source": src.describe(), "faults": format!("{:?}", src.faults), "count": out.layers.counted, "delivered": delivered, "failed_reads": failed, "outcome": class, "trace": rep.trace.log_strings()}));
